@@ -225,7 +225,7 @@ fn short(e: &BusEv) -> String {
 
 pub fn c06(args: &Args) -> Acc {
     let mut total = Acc::new();
-    let n = args.n(20_000, 600_000);
+    let n = args.n(200_000, 3_000_000);
     let acc = par_cases(n, args.threads, args.case, |idx, a| {
         let mut rng = Rng::for_case(args.seed, "C06", &args.tier, idx);
         let buf_len = match rng.below(8) {
@@ -238,7 +238,7 @@ pub fn c06(args: &Args) -> Acc {
             6 => rng.range(4, 300) as usize,
             _ => 12,
         };
-        let max_count = if args.quick() { 3000 } else { 1 << 20 };
+        let max_count = if crate::small() { 60 } else if args.quick() { 3000 } else { 1 << 20 };
         let nops = rng.range(1, 6);
         let mut ops = vec![TOp::Cmd { cmd: 0x2C, params: vec![] }];
         for _ in 0..nops {
@@ -366,12 +366,12 @@ pub fn c07(args: &Args) -> Acc {
     let mut total = Acc::new();
     // (a) word sequences on 8- and 16-bit buses
     if args.want_stage("words") {
-        let n = args.n(12_000, 400_000);
+        let n = args.n(100_000, 2_000_000);
         let acc = par_cases(n, args.threads, args.case, |idx, a| {
             let mut rng = Rng::for_case(args.seed, "C07/words", &args.tier, idx);
             let wide = rng.bool();
             let mask = if wide { 0xFFFF } else { 0xFF };
-            let max_count = if args.quick() { 2000 } else { 1 << 20 };
+            let max_count = if crate::small() { 40 } else if args.quick() { 2000 } else { 1 << 20 };
             let nops = rng.range(1, 6);
             let mut ops = vec![];
             for _ in 0..nops {
@@ -442,7 +442,7 @@ pub fn c07(args: &Args) -> Acc {
     }
     // (b) set_value histories with a failing data pin, three fault effect modes
     if args.want_stage("bus") {
-        let n = args.n(40_000, 1_500_000);
+        let n = args.n(400_000, 6_000_000);
         let acc = par_cases(n, args.threads, args.case, |idx, a| {
             let mut rng = Rng::for_case(args.seed, "C07/bus", &args.tier, idx);
             let wide = rng.bool();
@@ -653,9 +653,24 @@ pub fn c05(args: &Args) -> Acc {
                 a.count("values_checked_stream_path", cnt);
                 v += cnt;
             }
-            // repeat path: one fill_solid per value (1..3 pixels)
+            // repeat path: one fill_solid per value (1..3 pixels), every other one directly after
+            // a single pixel of the same colour (so a transport that believes its staging
+            // buffer already holds the colour is exposed)
             for v in lo..hi {
                 let w = 1 + (v % 3) as u32;
+                if v % 2 == 0 {
+                    let rep = s.step(&Op::SetPixel { x: (v % 11) as u16, y: (v % 13) as u16, c: v as u32 });
+                    if let Some(f) = rep.findings.first() {
+                        a.violate(
+                            "exhaustive",
+                            idx,
+                            format!("set_pixel/{}/{}", tr.name(), f.kind()),
+                            format!("value {}: {}", v, f.describe()),
+                            cfg.to_json().with("value", v).with("path", "send_pixels (single)"),
+                        );
+                        return;
+                    }
+                }
                 let op = Op::FillSolid { rect: crate::ops::Rect { x: (v % 7) as i32, y: (v % 5) as i32, w, h: 1 }, c: v as u32 };
                 let rep = s.step(&op);
                 if let Some(f) = rep.findings.first() {
